@@ -37,6 +37,9 @@ var vhWrongCtx int
 // concurrent harness, where a buffer killed by a fatal error has no defined result).
 var vhNoFatal bool
 
+// vhAllowDup drops the pairwise-distinct-ids assumption of the pre-state (experiments only).
+var vhAllowDup bool
+
 func vhCheckCtx(ctx context.Context) {
 	if ctx == nil || ctx.Value(vhCtxKey{}) == nil {
 		vhWrongCtx++
@@ -97,7 +100,9 @@ func vhPre() (w *workingState[uint64, vhTx], txs []vhTx, eff uint64) {
 	for i := 0; i < k; i++ {
 		id := verifrt.U64("id")
 		for j := 0; j < i; j++ {
-			verifrt.Assume(id != txs[j].ID)
+			if !vhAllowDup {
+				verifrt.Assume(id != txs[j].ID)
+			}
 		}
 		txs[i] = vhTx{ID: id}
 		verifrt.Assume(verifrt.UFBool("valid", s, id))
@@ -219,7 +224,7 @@ func VH_C19_AddTx() {
 func VH_C19_Buffered() {
 	w, pre, eff := vhPre()
 	base := w.BaseState
-	nd := verifrt.Choose("dstlen", 3)       // 0: nil dst
+	nd := verifrt.Choose("dstlen", 3)      // 0: nil dst
 	spare := verifrt.Choose("dstspare", 2) // dst with room for everything or none
 	var dst []vhTx
 	if nd > 0 {
@@ -254,7 +259,19 @@ func VH_C19_Buffered() {
 // VH_C19_Rebase: one Rebase to an arbitrary new base, reporting as applied any
 // subset of the pending transactions plus possibly one more transaction
 // (unconstrained id: usually one the buffer never saw).
-func VH_C19_Rebase() {
+func VH_C19_Rebase() { vhAllowDup = false; vhRebase() }
+
+// vhC19RebaseDup is VH_C19_Rebase without the distinct-id assumption. It is NOT
+// part of the check (the deleter contract does not define duplicates); renamed to
+// VH_C19_RebaseDup it reproduces the reported observation: with two pending
+// transactions the deleter cannot tell apart, of which the first still applies on
+// the new base and the second does not, pruning "invalidated" through txDeleter
+// drops both while curState keeps the effect of the first.
+func vhC19RebaseDup() { vhAllowDup = true; vhRebase() }
+
+var _ = vhC19RebaseDup
+
+func vhRebase() {
 	w, pre, _ := vhPre()
 	k := len(pre)
 	newBase := verifrt.U64("newbase")
@@ -342,7 +359,7 @@ func VH_C19_Rebase() {
 	if len(inval) > 0 && len(kept) > 0 {
 		verifrt.Reach("rebase-kept-some-and-invalidated-some")
 	}
-	vhAssertI(w, "rebase", true)
+	vhAssertI(w, "rebase", !vhAllowDup)
 	// nothing handed back as invalidated is still pending
 	for _, t := range resp.Invalidated {
 		for _, p := range w.Txs {
